@@ -178,6 +178,64 @@ Proof.
   unfold yields, w_truediv, ps_divide. cbn [ps_map3]. unfold divide_leaf, divide_impl.
   eexists. split; [reflexivity|]. split; [apply upd_same | intros j Hj; apply upd_other; exact Hj].
 Qed.
+
+(* ---- more operators ---- *)
+Theorem rsub_spec (x y t : nat) (s : store T) :        (* y - x, computed into the fresh t *)
+  length (s y) = length (s x) -> length (s t) = length (s y) ->
+  yields (w_rsub flg bdtf icast sp (Leaf x) (Leaf y) (Leaf t)) s t (vsub (s y) (s x)).
+Proof.
+  intros L1 L2. destruct (lin_leaf (of_Z 1) (of_Z (-1)) y x t s L1 L2) as (s' & E & Ho & Hf).
+  exists s'. split; [exact E|]. split; [|exact Hf]. rewrite Ho. entrywise.
+  destruct (nth_error (s y) k), (nth_error (s x) k); cbn; try reflexivity. f_equal.
+  rewrite nf_of1, nf_ofm1. ring.
+Qed.
+
+Theorem sub_scalar_spec (c : T) (x t : nat) (s : store T) :
+  t <> x -> length (s t) = length (s x) ->
+  yields (w_sub_scalar flg bdtf icast sp (Leaf x) c (Leaf t)) s t (map (fun e => e - c) (s x)).
+Proof.
+  intros Htx L2. destruct (add_scalar_spec (- c) x t s Htx L2) as (s' & E & Ho & Hf).
+  exists s'. split; [exact E|]. split; [|exact Hf]. rewrite Ho. apply map_ext. intros e. ring.
+Qed.
+
+(* x += c : lincomb(1, x, c, one(), out=x) with a temporary t = one() *)
+Theorem iadd_scalar_spec (c : T) (x t : nat) (s : store T) :
+  t <> x -> length (s t) = length (s x) ->
+  exists s', w_iadd_scalar flg bdtf icast sp (Leaf x) c (Leaf t) s = Ok s'
+    /\ s' x = map (fun e => e + c) (s x)
+    /\ forall j, j <> x -> j <> t -> s' j = s j.
+Proof.
+  intros Htx L2. unfold w_iadd_scalar, with_one. cbn [fill_elem].
+  set (s1 := upd s t (map (fun _ => of_Z 1) (s t))).
+  assert (E1 : s1 x = s x) by (unfold s1; apply upd_other; congruence).
+  assert (E2 : s1 t = map (fun _ => of_Z 1) (s t)) by (unfold s1; apply upd_same).
+  assert (L1' : length (s1 x) = length (s1 t)) by (rewrite E1, E2, map_length; congruence).
+  destruct (lin_leaf (of_Z 1) c x t x s1 L1' eq_refl) as (s' & E & Ho & Hf).
+  exists s'. split; [exact E|]. split.
+  - rewrite Ho, E1, E2. entrywise.
+    destruct (nth_error_both (s x) (s t) k (eq_sym L2)) as [(u & v & Eu & Ev) | (Eu & Ev)]; rewrite ?Eu, ?Ev; cbn;
+      [f_equal; rewrite nf_of1; ring | reflexivity].
+  - intros j Hjx Hjt. rewrite (Hf j Hjx). unfold s1. apply upd_other. exact Hjt.
+Qed.
+
+Theorem imul_spec (x y : nat) (s : store T) :
+  yields (w_imul sp (Leaf x) (Leaf y)) s x (vmul (s y) (s x)).
+Proof.
+  unfold yields, w_imul, ps_multiply. cbn [ps_map3]. unfold multiply_leaf, multiply_impl.
+  eexists. split; [reflexivity|]. split; [apply upd_same | intros j Hj; apply upd_other; exact Hj].
+Qed.
+Theorem itruediv_spec (x y : nat) (s : store T) :
+  yields (w_itruediv sp (Leaf x) (Leaf y)) s x (vdiv (s x) (s y)).
+Proof.
+  unfold yields, w_itruediv, ps_divide. cbn [ps_map3]. unfold divide_leaf, divide_impl.
+  eexists. split; [reflexivity|]. split; [apply upd_same | intros j Hj; apply upd_other; exact Hj].
+Qed.
+Theorem rtruediv_spec (x y t : nat) (s : store T) :
+  yields (w_rtruediv sp (Leaf x) (Leaf y) (Leaf t)) s t (vdiv (s y) (s x)).
+Proof.
+  unfold yields, w_rtruediv, ps_divide. cbn [ps_map3]. unfold divide_leaf, divide_impl.
+  eexists. split; [reflexivity|]. split; [apply upd_same | intros j Hj; apply upd_other; exact Hj].
+Qed.
 End Wrap.
 
 (* ---------- x **= p  (LinearSpaceElement.__ipow__, non-negative integer p) ---------- *)
